@@ -433,6 +433,45 @@ theorem tick_spec {w : World} {fn : Nat} (hr : w.clkRunning = true) (hs : w.clkS
     (fun k hk => List.mem_range.mp hk)
   simpa only [Nat.zero_add] using this
 
+theorem tick_go_clk (fn : Nat) : ∀ (js : List Nat) (w : World) (acc : List Dgram) (st : Nat),
+    (tick.go fn w acc st js).world.clkRunning = w.clkRunning ∧
+    (tick.go fn w acc st js).world.clkLinks = w.clkLinks ∧
+    (tick.go fn w acc st js).world.trxs.length = w.trxs.length := by
+  intro js
+  induction js with
+  | nil => intro w acc st; simp [tick.go]
+  | cons j js ih =>
+    intro w acc st
+    simp only [tick.go]
+    split
+    · exact ⟨rfl, rfl, rfl⟩
+    next w2 ds s2 hc =>
+      obtain ⟨⟨-, h1, h2⟩, -, h3, -⟩ := clckTick_ok hc
+      obtain ⟨i1, i2, i3⟩ := ih w2 (acc ++ ds) (st + s2)
+      exact ⟨i1.trans h1, i2.trans h2, i3.trans h3⟩
+
+/-- a tick never changes whether the clock generator runs, its links, or the transceiver list length -/
+theorem tick_clk (w : World) :
+    (tick w).world.clkRunning = w.clkRunning ∧ (tick w).world.clkLinks = w.clkLinks ∧
+    (tick w).world.trxs.length = w.trxs.length := by
+  cases hr : w.clkRunning
+  · rw [tick_stopped hr]; exact ⟨hr.symm ▸ rfl, rfl, rfl⟩
+  cases hs : w.clkSrc with
+  | none => rw [tick_nosrc hs]; exact ⟨hr.symm ▸ rfl, rfl, rfl⟩
+  | some fn =>
+    rw [tick_eq_go hr hs]
+    have := tick_go_clk fn (List.range w.trxs.length) w (tickInds w fn) 0
+    rw [hr] at this; exact this
+
+theorem tick_running (w : World) (k : Nat) : runningOf (tick w).world k = runningOf w k := by
+  cases hr : w.clkRunning
+  · rw [tick_stopped hr]
+  cases hs : w.clkSrc with
+  | none => rw [tick_nosrc hs]
+  | some fn =>
+    obtain ⟨_, _, -, h, -⟩ := tick_spec hr hs
+    exact h k
+
 /-! ### TRXC commands and power events -/
 
 /-- the transceivers a power event of transceiver `i` (= `self`) acts on -/
